@@ -494,6 +494,25 @@ Theorem C03_tagged :
 Proof. exact extended_copy_tags. Qed.
 Print Assumptions C03_tagged.
 
+(* ... and when it fails, the error is that of the first failing step, in the order Resolve
+   (source), FindPredecessors (source), copy of the roots, Tag (destination) *)
+Theorem C03_error_origin :
+  forall resolve roots_ok copy_ok tag_ok src_ref dst_ref tags,
+    match extended_copy_x resolve roots_ok copy_ok tag_ok src_ref dst_ref tags with
+    | XOk node tags' =>
+        extended_copy resolve (fun _ => (roots_ok && copy_ok)%bool) tag_ok src_ref dst_ref tags = Some (node, tags')
+    | XErr op =>
+        extended_copy resolve (fun _ => (roots_ok && copy_ok)%bool) tag_ok src_ref dst_ref tags = None /\
+        match op with
+        | OpResolve => resolve src_ref = None
+        | OpFindPredecessors => resolve src_ref <> None /\ roots_ok = false
+        | OpCopy => resolve src_ref <> None /\ roots_ok = true /\ copy_ok = false
+        | OpTag => resolve src_ref <> None /\ roots_ok = true /\ copy_ok = true /\ tag_ok = false
+        end
+    end.
+Proof. exact extended_copy_x_spec. Qed.
+Print Assumptions C03_error_origin.
+
 (* ---- the hypotheses are satisfiable; concrete runs of the model ----
    (sources ex_source, ex_remote, diamond_source: Proofs/FindRoots.v) *)
 
